@@ -129,6 +129,10 @@ HAND = [
     ("two-exports-conflict", {"files": [[("def", "n", "V1", "==")], [("def", "n", "V2", "==")]]}),
     ("two-exports-conflict-label-const", {"files": [[("lab", "n", "::")], [("def", "n", "V2", "=="), ("use", "n")]]}),
     ("duplicate-in-file", {"files": [[("def", "n", "V1", "="), ("def", "n", "V2", "="), ("use", "n")]]}),
+    ("underscore-label-closes-scope", {"files": [[("lab", "a", ":"), ("loc", "1"), ("useloc", "1"), ("lab", "_b", ":"), ("useloc", "1")]]}),
+    ("dollar-label-closes-scope", {"files": [[("lab", "a", ":"), ("loc", "1"), ("lab", "$c", ":"), ("loc", "1"), ("useloc", "1")]]}),
+    ("underscore-label-visible-in-file", {"files": [[("lab", "z", ":"), ("lab", "_sub", ":"), ("lab", "b", ":"), ("use", "_sub"), ("lab", "c", ":"), ("use", "_sub")]]}),
+    ("underscore-label-exported", {"files": [[("lab", "z", ":"), ("lab", "_x", "::"), ("use", "_x")], [("use", "_x")]]}),
     ("duplicate-same-text", {"files": [[("def", "n", "V1", "="), ("use", "n"), ("def", "n", "V1", "="), ("use", "n")]]}),
     ("duplicate-same-text-exported", {"files": [[("def", "n", "V1", "=="), ("def", "n", "V1", "==")], [("use", "n")]]}),
     ("duplicate-label-const", {"files": [[("lab", "n", ":"), ("def", "n", "V2", "=")]]}),
@@ -204,6 +208,23 @@ PENDING = {
 }
 
 
+def h_repeat_include_scopes(params, vals, ctx):
+    """Local scopes opened by files that are included from a '.repeat' body stay private: a scope after the loop neither sees
+    their local labels nor clashes with them."""
+    b = vals["B"]
+    require(0 <= b < 60000 and b % 2 == 0)
+    require(-1000 < vals["V1"] < 1000)
+    write_aux_file("c11", "rep_inc.mac", "1: .word 7\nnop\n2: nop\n")
+    own = params["own_label"]
+    text = (".link {B}\na: nop\n.repeat 2 { .include \"rep_inc.mac\" }\nb: .word {V1}\nc: nop\n" + ("1: nop\n" if own else "") + "br 1\n2: nop\nd: br 2\n")
+    o = assemble([(os.path.join(AUX, "rep_main.mac"), text)], vals, route=ctx.route, order=["B", "V1"])
+    ctx.observe_outcome(o)
+    ctx.reach(o.status == "failed")
+    # scope c: 'br 1' finds a 1: only if it has its own; scope d has no 2: -- the labels of the included copies are invisible
+    undefined = len([e for e in o.error_ids if e == "undefined-symbol"])
+    return o.status == "failed" and undefined == (1 if own else 2) and "duplicate-symbol" not in o.error_ids
+
+
 def h_pending(params, vals, ctx):
     files_t, probes = PENDING[params["name"]]
     b = vals["B"]
@@ -230,6 +251,9 @@ def obligations(tier, seed):
         vs = layout_vars(layout)
         obs.append(Ob(oid=name, harness=P + "h_scope", params={"layout": layout, "tag": f"L{k}"}, vars={"B": "int", **{v: "int" for v in vs}},
                       timeout=300, per_path=90, note=str(layout)[:300]))
+    for own in (False, True):
+        obs.append(Ob(oid=f"repeat-include-scopes/{'own-label' if own else 'no-label'}", harness=P + "h_repeat_include_scopes", params={"own_label": own},
+                      vars={"B": "int", "V1": "int"}, timeout=300, per_path=90))
     for name in PENDING:
         obs.append(Ob(oid=f"pending/{name}", harness=P + "h_pending", params={"name": name}, vars={"B": "int", "V1": "int"}, timeout=300, per_path=90,
                       note=" || ".join(t.replace("\n", " / ") for t in PENDING[name][0])[:300]))
